@@ -490,3 +490,57 @@ def check_early_list(ck, P, rid):
         ck.holds(rid, "init@process_lp_init", st[0].where, "early_antis = NULL", cfg)
     else:
         ck.violated(rid, "init@process_lp_init", i.where, "the early anti-message list is not initialised to empty", cfg)
+
+
+# --------------------------------------------------------------------------------------------------------------
+# the flag word of a freshly allocated message is initialised before the message is published
+# --------------------------------------------------------------------------------------------------------------
+def check_flags_initialised(ck, P, rid):
+    """The comparator reads the ANTI bit and the cancellation protocol reads the whole word; buffers are recycled, so a
+    message obtained from msg_allocator_pack/alloc carries stale flags until something stores to them."""
+    cfg = P.config
+    n = 0
+    for f in P.all_functions():
+        if not f.file.startswith("src/") or f.name in ("msg_allocator_pack", "msg_allocator_alloc"):
+            continue
+        for c in f.calls():
+            if c.callee not in ("msg_allocator_pack", "msg_allocator_alloc"):
+                continue
+            kind, mv = Q.result_var(c)
+            if kind != "var":
+                continue
+            n += 1
+            g = f.cfg
+            inst = "flags-init@%s" % f.name
+            inits = set()
+            for x in f.walk():
+                # direct store to flags / raw_flags of this message (plain or atomic)
+                if x.k in ("BinaryOperator", "CompoundAssignOperator") and x.op == "=":
+                    t = X.strip(x.children[0])
+                    if t.k == "MemberExpr" and t.name in ("flags", "raw_flags") and X.show(t.children[0]) == mv.name:
+                        inits.add(x.id)
+                if x.k == "AtomicExpr" and Q.atomic_kind(x) == "store":
+                    t, _ = Q.atomic_target(x)
+                    if t is not None and t.k == "MemberExpr" and t.name in ("flags", "raw_flags") and X.show(t.children[0]) == mv.name:
+                        inits.add(x.id)
+                # helpers that write the whole word, and receives that overwrite the transmitted part (which contains it)
+                if x.k == "CallExpr" and x.callee in ("mpi_remote_msg_send", "gvt_remote_msg_send", "MPI_Mrecv") and any(
+                        r.k == "DeclRefExpr" and r.did == mv.did for a in X.callee_args(x) for r in a.walk()):
+                    inits.add(x.id)
+            pubs = []
+            for x in f.walk():
+                if x.k == "CallExpr" and x.callee in ("msg_queue_insert", "common_msg_process") and any(r.k == "DeclRefExpr" and r.did == mv.did for a in X.callee_args(x) for r in a.walk()):
+                    pubs.append(x)
+                if x.k == "StmtExpr" and x.macros and x.macros[0] in ("heap_insert", "array_push") and any(r.k == "DeclRefExpr" and r.did == mv.did for r in x.walk()):
+                    first = next((y for y in x.walk() if y.id in g.pos), None)
+                    if first is not None:
+                        pubs.append(first)
+            if not pubs:
+                continue
+            w = g.escapes(g.position(c), inits, goal="none", goal_ids={p.id for p in pubs})
+            if w:
+                ck.violated(rid, inst, c.where, "a message from %s() is published (%s) without its flag word having been written: the buffer is recycled, so the event order and the cancellation protocol read a previous message's flags" % (
+                    c.callee, witness_text(f, w)), cfg)
+            else:
+                ck.holds(rid, inst, c.where, "flags/raw_flags written on every path between allocation and publication", cfg)
+    ck.expect(rid, n, 5, "allocation sites of messages")
